@@ -602,6 +602,66 @@ macro_rules! illconditioned_native {
 illconditioned_native!(illconditioned_native_f64, f64, 94_906_265, 8191);
 illconditioned_native!(illconditioned_native_f32, f32, 4095, 63);
 
+
+/// native floats: transpose() and transpose_self() move every element bit for bit - zeros of either sign included, and on
+/// matrices that are symmetric exactly, nearly, or up to the sign of a zero
+fn transpose_native_f64(d: &mut Draw) -> Outcome {
+    let n = d.int(2, 4) as usize;
+    let kind = d.int(0, 4);
+    let mut t = RM::<f64>::from_fn(n, |_, _| match d.int(0, 5) {
+        0 => 0.0,
+        1 => -0.0,
+        2 => d.int(-3, 3) as f64,
+        _ => d.f64_slog(1e-3, 1e3),
+    });
+    match kind {
+        // exactly symmetric, then mirrored zeros given opposite signs / mirrored entries moved by an ulp or a subnormal
+        0 | 1 | 2 => {
+            for c in 0..n {
+                for r in 0..c {
+                    t.e[r][c] = t.e[c][r];
+                }
+            }
+            for c in 0..n {
+                for r in 0..c {
+                    if kind >= 1 && t.e[c][r] == 0.0 && d.bool() {
+                        t.e[r][c] = -t.e[c][r];
+                    }
+                    if kind == 2 && t.e[c][r] != 0.0 && d.chance(1, 3) {
+                        t.e[r][c] = f64::from_bits(t.e[c][r].to_bits() + 1);
+                    }
+                }
+            }
+        }
+        // tiny
+        3 => {
+            let k = (2.0f64).powi(-d.int(40, 1000) as i32);
+            t = t.map(|x| x * k);
+        }
+        _ => {}
+    }
+    d.note("M", &t);
+    let want = RM::<f64>::from_fn(n, |c, r| t.e[r][c]);
+    let same = |x: &RM<f64>, y: &RM<f64>| (0..n).all(|c| (0..n).all(|r| x.e[c][r].to_bits() == y.e[c][r].to_bits()));
+    macro_rules! go {
+        ($mk:ident) => {{
+            let m = $mk(&t);
+            ensure!(same(&m.transpose().rm(), &want), "transpose-bits", "transpose() does not move element (c,r) to (r,c) bit for bit: {:?}", m);
+            let mut w = m;
+            w.transpose_self();
+            ensure!(same(&w.rm(), &want), "transpose_self-bits", "transpose_self() differs from transpose() (compared as bit patterns): {:?} -> {:?}", m, w);
+            w.transpose_self();
+            ensure!(same(&w.rm(), &t), "transpose_self-involution-bits", "transpose_self() twice does not restore the matrix bit for bit");
+        }};
+    }
+    match n {
+        2 => go!(mk_m2),
+        3 => go!(mk_m3),
+        _ => go!(mk_m4),
+    }
+    pass(["symmetric", "symmetric-up-to-sign-of-zero", "symmetric-up-to-an-ulp", "tiny", "generic-with-signed-zeros"][kind as usize], true)
+}
+
 const RULE_INV: &str = "dense invertible (all entries and all first minors non-zero), or one of the constructed singular / low-rank / tiny-determinant classes";
 const RULE_D: &str = "all entries of A and B non-zero and det A != 0";
 const RULE_T: &str = "all entries non-zero, neither operand symmetric";
@@ -647,6 +707,7 @@ pub fn property() -> Property {
     const ILL: &[(&str, u32)] = &[("2x2", 200), ("3x3", 200), ("4x4", 200)];
     s.push(sc!("illconditioned_native-f64", "f64", illconditioned_native_f64, 4000, 300_000, 32, ILL, "every generated matrix (permuted direct sums of [[a,a-1],[a+1,a]] and ones)", false));
     s.push(sc!("illconditioned_native-f32", "f32", illconditioned_native_f32, 4000, 300_000, 32, ILL, "every generated matrix (permuted direct sums of [[a,a-1],[a+1,a]] and ones)", false));
+    s.push(sc!("transpose_native-f64", "f64", transpose_native_f64, 4000, 300_000, 96, &[("symmetric", 100), ("symmetric-up-to-sign-of-zero", 100), ("symmetric-up-to-an-ulp", 100), ("tiny", 100), ("generic-with-signed-zeros", 100)], "every generated matrix", false));
     s.push(sc!("invert_near_special-f64", "f64", invert_near_special_f64, 6000, 400_000, 80, &[("near-rotation", 300), ("near-diagonal", 100)], "every generated matrix (a rotation or diagonal matrix with 1-3 entries or the overall scale off by 1e-14..1e-4)", false));
     Property {
         id: "C02",
